@@ -140,7 +140,7 @@ static cbor_item_t* build(int depth) {
   if (depth <= 0 || !vh_randn(3)) return leaf();
   switch (vh_randn(8)) {
     case 0: case 1: { /* array */
-      size_t n = vh_randn(5);
+      size_t n = vh_randn(6) ? vh_randn(5) : vh_randn(13);
       bool def = vh_randn(2);
       /* definite: sometimes spare slots, occasionally a capacity on the other side of a head-width boundary (23/24, 255/256, 65535/65536) */
       static const size_t spare[] = {0, 0, 0, 1, 1, 2, 21, 24, 30, 252, 256, 300, 65533, 65536};
@@ -156,7 +156,7 @@ static cbor_item_t* build(int depth) {
       return a;
     }
     case 2: case 3: { /* map */
-      size_t n = vh_randn(4);
+      size_t n = vh_randn(6) ? vh_randn(4) : vh_randn(13); /* now and then up to 12 entries: every capacity step 1,2,4,8,16 and the counts between */
       bool def = vh_randn(2);
       static const size_t mspare[] = {0, 0, 0, 1, 1, 2, 21, 24, 30, 252, 256, 300, 65533, 65536};
       cbor_item_t* mp = def ? cbor_new_definite_map(n + mspare[vh_randn(14)]) : cbor_new_indefinite_map();
@@ -173,7 +173,7 @@ static cbor_item_t* build(int depth) {
     case 4: { /* chunked byte string */
       cbor_item_t* s = cbor_new_indefinite_bytestring();
       if (!s) return NULL;
-      size_t n = vh_randn(4);
+      size_t n = vh_randn(6) ? vh_randn(4) : vh_randn(13); /* now and then up to 12 entries: every capacity step 1,2,4,8,16 and the counts between */
       for (size_t i = 0; i < n; i++) {
         unsigned char b[8];
         size_t l = vh_randn(6);
@@ -188,7 +188,7 @@ static cbor_item_t* build(int depth) {
     case 5: { /* chunked text string */
       cbor_item_t* s = cbor_new_indefinite_string();
       if (!s) return NULL;
-      size_t n = vh_randn(4);
+      size_t n = vh_randn(6) ? vh_randn(4) : vh_randn(13); /* now and then up to 12 entries: every capacity step 1,2,4,8,16 and the counts between */
       static const char* parts[] = {"", "a", "bc", "\xc3\xa9", "xyz"};
       for (size_t i = 0; i < n; i++) {
         cbor_item_t* c = cbor_build_string(parts[vh_randn(5)]);
